@@ -7,6 +7,7 @@ from vstat.guards import path_conditions
 from vstat.cfg import cfg_of
 from vstat.sigs import bind
 from vstat import algebra
+from .ctor import ctor_stores
 
 DS = "virocon.contours.DirectSamplingContour"
 P = lambda n: ("param", n)
@@ -24,6 +25,8 @@ def run(prog, rep):
     rep.assumptions = ASSUME
     default_n(prog, rep, DS, "C03.n")
     compute(prog, rep)
+    ctor_stores(prog, rep, "C03.ctor", DS, ["model", "alpha", "deg_step", "sample"])
+    rep.expect_min("C03.ctor", 2)
     rep.expect_min("C03.n", 2)
     rep.expect_min("C03.proj", 3)
     rep.expect_min("C03.cramer", 2)
